@@ -217,7 +217,7 @@ def gen(rng, tier):
         cases.append({"stream": stream.hex(), "resp": resp, "plans": _async_plans(rng, stream, every), "cls": cls + "+async"})
 
     limit = 200
-    for k in range(70 if q else 1500):
+    for k in range(40 if q else 800):
         n = rng.choice([1, 2, 2, 3])
         s = b"".join(c19._valid_request(rng, i == n - 1, tricky_body=rng.random() < 0.2) for i in range(n))
         if rng.random() < 0.15:
@@ -253,7 +253,7 @@ def gen(rng, tier):
             s = s[:j] + bytes([rng.randrange(256)]) + s[j + 1:]
             add(s, "mutated", len(s) <= limit)
     # random byte damage to valid pipelines
-    for _ in range(30 if q else 600):
+    for _ in range(20 if q else 400):
         s = c19._valid_request(rng, False) + c19._valid_request(rng, True)
         for _ in range(rng.randrange(1, 3)):
             j = rng.randrange(len(s))
